@@ -108,6 +108,14 @@ def make_pool():
     P["img_big_view"] = P["img_big"][::2, 1::2]
     P["stack_big"] = numpy.array([numpy.roll(base, k, k % 2) + k % 5 for k in range(130)])
     P["vec_big"] = (numpy.arange(1025.) * 7) % 13 + 1
+    # detector frames with flagged (NaN) and saturated (inf) pixels: they are values like any other
+    bad = base.copy()
+    bad[1, 2] = numpy.nan
+    bad[4, 0] = numpy.inf
+    P["img_nan"] = bad
+    sbad = st.copy()
+    sbad[1, 3, 3] = numpy.nan
+    P["stack_nan"] = sbad
     P["img2"] = numpy.array([[1., 3.], [2., 7.]])
     P["stack2"] = numpy.array([[[1., 3.], [2., 7.]], [[4., 1.], [0., 2.]]])
     P["ref"] = numpy.roll(base, 1, 1) + 0.5          # reference image with non-zero minimum
@@ -327,6 +335,19 @@ def recipes():
     add("twoStepFresnel:m1", A + "opticalpropagation.twoStepFresnel", lambda P: op.twoStepFresnel(P["field"], 5e-7, 0.01, 0.01, -500.))
     add("lensAgainst", A + "opticalpropagation.lensAgainst", lambda P: op.lensAgainst(P["field"], 5e-7, 0.01, 2.5))
     add("angularSpectrum:real", A + "opticalpropagation.angularSpectrum", lambda P: op.angularSpectrum(P["img_ro"], 5e-7, 0.01, 0.01, 300.))
+    # ---- frames with NaN / inf pixels
+    for arr in ("img_nan", "stack_nan"):
+        add("centre_of_gravity:" + arr, A + "image_processing.centroiders.centre_of_gravity", lambda P, a=arr: cen.centre_of_gravity(P[a]))
+        add("centre_of_gravity:thr:" + arr, A + "image_processing.centroiders.centre_of_gravity", lambda P, a=arr: cen.centre_of_gravity(P[a], threshold=0.3))
+        add("brightest_pixel:" + arr, A + "image_processing.centroiders.brightest_pixel", lambda P, a=arr: cen.brightest_pixel(P[a], 0.3))
+        add("correlation_centroid:" + arr, A + "image_processing.centroiders.correlation_centroid", lambda P, a=arr: cen.correlation_centroid(P[a], P["ref"]))
+        add("image_contrast:" + arr, A + "image_processing.contrast.image_contrast", lambda P, a=arr: con.image_contrast(P[a]))
+        add("rms_contrast:" + arr, A + "image_processing.contrast.rms_contrast", lambda P, a=arr: con.rms_contrast(P[a]))
+        add("binImgs:" + arr, A + "interpolation.binImgs", lambda P, a=arr: ip.binImgs(P[a], 2))
+        add("ft2:" + arr, A + "fouriertransform.ft2", lambda P, a=arr: ftm.ft2(P[a], 0.5))
+    add("azimuthal_average:img_nan", A + "image_processing.psf.azimuthal_average", lambda P: psf.azimuthal_average(P["img_nan"]))
+    add("encircled_energy:img_nan", A + "image_processing.psf.encircled_energy", lambda P: psf.encircled_energy(P["img_nan"]))
+    add("calculate_structure_function:img_nan", A + "turbulence.slopecovariance.calculate_structure_function", lambda P: sc.calculate_structure_function(P["img_nan"]))
     # ---- the same families on large arrays
     for arr in ("img_big", "img_big_rect", "img_big_view", "stack_big"):
         add("centre_of_gravity:" + arr, A + "image_processing.centroiders.centre_of_gravity", lambda P, a=arr: cen.centre_of_gravity(P[a], threshold=0.3))
@@ -959,7 +980,14 @@ def _b_profiles(which):
         cn2 = stack[:, 0, :] * 1e-15
         aux = stack[:, 1, :] * 100. + 50.
         full = fn(cn2.copy(), aux.copy(), 5e-7, axis=-1)
-        return [full[k] for k in range(stack.shape[0])], [fn(cn2[k].copy(), aux[k].copy(), 5e-7) for k in range(stack.shape[0])]
+        # the same profiles with the layers along the FIRST axis (layers x profiles), axis=0 positional and by keyword
+        full0 = fn(numpy.ascontiguousarray(cn2.T), numpy.ascontiguousarray(aux.T), 5e-7, 0)
+        full0k = fn(numpy.ascontiguousarray(cn2.T), numpy.ascontiguousarray(aux.T), 5e-7, axis=0)
+        singles = [fn(cn2[k].copy(), aux[k].copy(), 5e-7) for k in range(stack.shape[0])]
+        if numpy.shape(full0) != numpy.shape(full) or numpy.shape(full0k) != numpy.shape(full):
+            raise ValueError("axis=0 result of shape %s for %d profiles" % (numpy.shape(full0), stack.shape[0]))
+        return [full[k] for k in range(stack.shape[0])] + [full0[k] for k in range(stack.shape[0])] + [full0k[k] for k in range(stack.shape[0])], \
+            singles * 3
     return f
 
 
